@@ -326,7 +326,7 @@ CHECKS = {
  "C16": dict(
     engine="mirsym",
     technique="symbolic execution of the MIR of compio-quic's connection state (ConnectionState::{terminate, close, wake}, "
-              "wake_all_streams, ConnectionInner::{state, try_state}, Connection::{poll_recv_datagram, poll_open_stream, "
+              "wake_all_streams, wake_stream, the event arms of ConnectionInner::run's coroutine body executed as slices, ConnectionInner::{state, try_state}, Connection::{poll_recv_datagram, poll_open_stream, "
               "poll_accept_stream}, SendStream::{stopped, execute_poll_write}, RecvStream::{received_reset, execute_poll_read}) with quinn-proto abstracted to nothing / something answers; waker containers are ghost bags whose "
               "field list is parsed from the struct definition on every run; all paths are enumerated, z3 discharges the "
               "(propositional) obligations",
@@ -341,8 +341,13 @@ CHECKS = {
          "container that terminate drains (under the right direction) and answer Pending; (c) SendStream::stopped, "
          "RecvStream::{received_reset, execute_poll_read} and SendStream::execute_poll_write answer Pending only while the connection is alive, with the "
          "caller's waker then in `stopped` / `readable` / `writable`, and complete (error or quinn-proto's answer) after "
-         "termination without registering. All run under the connection's mutex, so a future is either woken by the close or "
-         "sees its error.",
+         "termination without registering, the waker filed under the stream's own id. All run under the connection's mutex, so a future "
+         "is either woken by the close or sees its error; (d-g) the worker's side, executed as slices of ConnectionInner::run's coroutine "
+         "body between two calls of state.conn.poll() resp. events.next(): wake_stream wakes exactly the named stream's waker; each "
+         "per-stream event (Readable / Writable / Finished / Stopped) wakes that stream's reader / writer / stopped() future (Stopped: "
+         "both stopped() and the blocked writer) and no other stream's; Opened / Available / datagram / handshake / Connected events wake "
+         "every future parked in their table and strand nobody; ConnectionEvent::Close stores the error and wakes every waker in every "
+         "field.",
     design_ref="DESIGN.md §1 C16",
     note="Partial by construction: ordered exactly-once stream delivery, finish / end-of-stream, flow control, datagram independence "
          "(quinn-proto, UDP sockets, the connection worker) are NOT covered and not claimed; nor are endpoint close or the worker's "
